@@ -27,7 +27,7 @@ import copy
 PURE_FUNCS = {'len', 'int', 'float', 'str', 'bytes', 'bool', 'min', 'max', 'abs', 'isinstance', 'tuple', 'repr', 'ord', 'chr', 'divmod',
               'round', 'range', 'enumerate', 'zip', 'sorted', 'list', 'set', 'dict', 'type', 'hasattr', 'getattr', 'sum', 'all', 'any',
               'bytearray', 'frozenset', 'reversed', 'slice', 'format', 'hex', 'id'}
-PURE_METHODS = {'decode', 'encode', 'format', 'strip', 'lstrip', 'rstrip', 'lower', 'upper', 'split', 'rsplit', 'join', 'startswith', 'endswith',
+PURE_METHODS = {'issubdtype', 'dirname', 'basename', 'splitext', 'isfile', 'isdir', 'exists', 'decode', 'encode', 'format', 'strip', 'lstrip', 'rstrip', 'lower', 'upper', 'split', 'rsplit', 'join', 'startswith', 'endswith',
                 'find', 'rfind', 'replace', 'get', 'keys', 'values', 'items', 'count', 'index', 'match', 'search', 'fullmatch', 'group', 'groups',
                 'center', 'ljust', 'rjust', 'isdigit', 'isalpha', 'isprintable', 'indices', 'bit_length', 'copy', 'splitlines', 'partition',
                 'unpack', 'unpack_from', 'pack', 'tobytes', 'hex', 'title', 'capitalize', 'zfill', 'translate', 'isspace'}
@@ -1060,8 +1060,16 @@ def split_webs(func, counter):
     # names touched in nested scopes are left alone
     nested = set()
     for n in ast.walk(func):
-        if n is not func and isinstance(n, (ast.FunctionDef, ast.AsyncFunctionDef, ast.Lambda, ast.ClassDef, ast.GeneratorExp, ast.ListComp, ast.SetComp, ast.DictComp)):
+        if n is not func and isinstance(n, (ast.FunctionDef, ast.AsyncFunctionDef, ast.Lambda, ast.ClassDef)):
             nested |= {x.id for x in ast.walk(n) if isinstance(x, ast.Name)}
+        elif isinstance(n, (ast.GeneratorExp, ast.ListComp, ast.SetComp, ast.DictComp)):
+            # a comprehension binds its own targets; only the names it reads from outside tie it to the function's locals,
+            # and those reads happen at a definite point only for list / set / dict comprehensions (a generator is lazy)
+            bound = {x.id for g in n.generators for x in ast.walk(g.target) if isinstance(x, ast.Name)}
+            free = {x.id for x in ast.walk(n) if isinstance(x, ast.Name)} - bound
+            if isinstance(n, ast.GeneratorExp):
+                nested |= free
+            nested |= set()
     parent = {}
 
     def find(a):
@@ -1087,12 +1095,30 @@ def split_webs(func, counter):
                 out[k] = out.get(k, frozenset()) | v
         return out
 
-    def uses_in(expr, env):
+    def uses_in(expr, env, bound=frozenset()):
         if expr is None:
             return
-        for n in ast.walk(expr):
-            if isinstance(n, ast.Name) and isinstance(n.ctx, ast.Load):
-                use_sets.append((n, env.get(n.id, frozenset([(ENTRY, n.id)]))))
+        if isinstance(expr, (ast.ListComp, ast.SetComp, ast.DictComp, ast.GeneratorExp)):
+            b = set(bound)
+            for g in expr.generators:
+                uses_in(g.iter, env, frozenset(b))
+                b |= {x.id for x in ast.walk(g.target) if isinstance(x, ast.Name)}
+                for i in g.ifs:
+                    uses_in(i, env, frozenset(b))
+            for part in ([expr.key, expr.value] if isinstance(expr, ast.DictComp) else [expr.elt]):
+                uses_in(part, env, frozenset(b))
+            return
+        if isinstance(expr, ast.Lambda):
+            b = set(bound) | {a.arg for a in expr.args.args + expr.args.kwonlyargs}
+            uses_in(expr.body, env, frozenset(b))
+            return
+        if isinstance(expr, ast.Name):
+            if isinstance(expr.ctx, ast.Load) and expr.id not in bound:
+                use_sets.append((expr, env.get(expr.id, frozenset([(ENTRY, expr.id)]))))
+            return
+        for c in ast.iter_child_nodes(expr):
+            if isinstance(c, (ast.expr, ast.keyword, ast.comprehension)) or isinstance(c, ast.AST) and not isinstance(c, (ast.stmt, ast.expr_context, ast.operator, ast.unaryop, ast.boolop, ast.cmpop)):
+                uses_in(c, env, bound)
 
     def define(target, env):
         for n in ast.walk(target):
